@@ -10,7 +10,9 @@
 //	flows/routers/cases/tests.go         variadic ...types.XValue parameter the index sites on that slice with the
 //	                                     enclosing / preceding len(args) guards
 //	excellent/functions/builtin.go       const maxRoundingPlaces; Round, RoundUp, RoundDown start with the
-//	                                     checkRoundingPlaces guard
+//	                                     checkRoundingPlaces guard; Mod starts with the zero-divisor guard
+//	excellent/operators/builtin.go       const maxNumberExponent; exponentOutOfRange; Multiply starts with the
+//	                                     exponent guard, Divide with the zero-divisor guard
 //
 // Fails loudly (exit 2) when the source no longer has this shape: the three base checks differ from the
 // text recorded below, a registration is not of the two forms, a wrapper's bounds are not constant, ...
@@ -692,7 +694,8 @@ func analyseRegistry(path string, ws map[string]*wrapper) ([]reg, []site, []dynS
 }
 
 // rounding guard: const maxRoundingPlaces = N; Round/RoundUp/RoundDown begin with
-//   if xerr := checkRoundingPlaces(places); xerr != nil { return xerr }
+//
+//	if xerr := checkRoundingPlaces(places); xerr != nil { return xerr }
 func analyseRounding(f *ast.File) (int, [][2]string) {
 	maxPlaces, ok := 0, false
 	var guarded [][2]string
@@ -732,6 +735,75 @@ func analyseRounding(f *ast.File) (int, [][2]string) {
 	return maxPlaces, guarded
 }
 
+// operator guards: excellent/operators/builtin.go  const maxNumberExponent; exponentOutOfRange; Multiply starts
+// with the exponent-sum guard; Divide starts with the zero-divisor guard; functions.Mod starts with it too
+func firstStmtIs(decls []ast.Decl, varName string, want string) string {
+	for _, d := range decls {
+		switch x := d.(type) {
+		case *ast.GenDecl: // var Multiply = numericalBinary(func(...) { ... })
+			for _, sp := range x.Specs {
+				vs, ok := sp.(*ast.ValueSpec)
+				if !ok || len(vs.Names) != 1 || vs.Names[0].Name != varName || len(vs.Values) != 1 {
+					continue
+				}
+				call, ok := vs.Values[0].(*ast.CallExpr)
+				if !ok || len(call.Args) != 1 {
+					fatal("operators: %s is not wrapper(func...)", varName)
+				}
+				fl, ok := call.Args[0].(*ast.FuncLit)
+				if !ok || len(fl.Body.List) == 0 {
+					fatal("operators: %s has no function literal", varName)
+				}
+				if normalise(src(fl.Body.List[0])) == normalise(want) {
+					return "true"
+				}
+				return "false"
+			}
+		case *ast.FuncDecl:
+			if x.Recv == nil && x.Name.Name == varName && len(x.Body.List) > 0 {
+				if normalise(src(x.Body.List[0])) == normalise(want) {
+					return "true"
+				}
+				return "false"
+			}
+		}
+	}
+	fatal("%s not found", varName)
+	return ""
+}
+
+func analyseOperators(path string, builtinFile *ast.File) (int, [][2]string) {
+	f := parseFile(path)
+	maxExp, ok := 0, false
+	for _, d := range f.Decls {
+		switch x := d.(type) {
+		case *ast.GenDecl:
+			for _, sp := range x.Specs {
+				if vs, isV := sp.(*ast.ValueSpec); isV && len(vs.Names) == 1 && vs.Names[0].Name == "maxNumberExponent" && len(vs.Values) == 1 {
+					maxExp, ok = intLit(vs.Values[0])
+				}
+			}
+		case *ast.FuncDecl:
+			if x.Name.Name == "exponentOutOfRange" {
+				want := "func exponentOutOfRange(exp *big.Int) bool {\nreturn !exp.IsInt64() || exp.Int64() < -maxNumberExponent || exp.Int64() > maxNumberExponent\n}"
+				if normalise(stripComments(x)) != normalise(want) {
+					fatal("exponentOutOfRange no longer has the recorded shape:\n%s", stripComments(x))
+				}
+			}
+		}
+	}
+	if !ok {
+		fatal("operators/builtin.go: const maxNumberExponent not found (the limit on decimal exponents is gone)")
+	}
+	zero := "if num2.Equals(types.XNumberZero) {\nreturn types.NewXErrorf(\"division by zero\")\n}"
+	mul := "if exponentOutOfRange(big.NewInt(int64(num1.Native().Exponent()) + int64(num2.Native().Exponent()))) {\nreturn types.NewXErrorf(\"number value out of range\")\n}"
+	return maxExp, [][2]string{
+		{"Multiply.exponent", firstStmtIs(f.Decls, "Multiply", mul)},
+		{"Divide.zero", firstStmtIs(f.Decls, "Divide", zero)},
+		{"Mod.zero", firstStmtIs(builtinFile.Decls, "Mod", zero)},
+	}
+}
+
 // ---------------------------------------------------------------------------------------------
 
 func z(i int) string {
@@ -765,6 +837,7 @@ func main() {
 	regsF, sitesF, dynF, builtinFile := analyseRegistry(filepath.Join(*repo, "excellent/functions/builtin.go"), ws)
 	regsT, sitesT, dynT, _ := analyseRegistry(filepath.Join(*repo, "flows/routers/cases/tests.go"), ws)
 	maxPlaces, guarded := analyseRounding(builtinFile)
+	maxExp, opGuards := analyseOperators(filepath.Join(*repo, "excellent/operators/builtin.go"), builtinFile)
 
 	regs := append(regsF, regsT...)
 	sort.Slice(regs, func(i, j int) bool { return regs[i].name < regs[j].name })
@@ -825,6 +898,14 @@ func main() {
 	}
 	fmt.Fprintf(&b, "].\n\nDefinition max_rounding_places_src : Z := %s.\n\nDefinition rounding_guarded : list (string * bool) := [", z(maxPlaces))
 	for i, g := range guarded {
+		if i > 0 {
+			b.WriteString("; ")
+		}
+		fmt.Fprintf(&b, "(%q, %s)", g[0], g[1])
+	}
+	b.WriteString("].\n")
+	fmt.Fprintf(&b, "\nDefinition max_number_exponent_src : Z := %s.\n\nDefinition operator_guards : list (string * bool) := [", z(maxExp))
+	for i, g := range opGuards {
 		if i > 0 {
 			b.WriteString("; ")
 		}
